@@ -79,6 +79,14 @@ func (e *engine) verifyFuncWith(fn *ssa.Function, blk *block, alias map[string]s
 			fc.thaw(st, v, mt)
 		}
 	}
+	for old, cur := range fc.alias {
+		// a renamed parameter: the contract's name for it denotes the same value
+		if b, ok := bind[cur]; ok {
+			if _, clash := bind[old]; !clash {
+				bind[old] = b
+			}
+		}
+	}
 	if fn.Signature.Recv() != nil && len(fn.Params) > 0 {
 		// $recv as seen by interface contracts: the boxed receiver
 		rv := bind[fn.Params[0].Name()]
